@@ -258,6 +258,8 @@ impl Compactor {
                         }
                     }
                 }
+                #[cfg(feature = "verif")]
+                crate::verif::sched::point("compactor.pass_end".into()).await;
                 match self.stop.try_recv() {
                     Ok(_) => break,
                     Err(tokio::sync::oneshot::error::TryRecvError::Closed) => break,
